@@ -116,10 +116,19 @@ class PyType:
 class Iter:
     """abstract finite iterator: count + item(it)"""
 
-    def __init__(self, count, item, ghost=None):
+    def __init__(self, count, item, ghost=None, has=None, done=None):
         self.count = count
         self.item = item
-        self.ghost = ghost  # optional callable(it) -> (assumptions, extras) introducing ghost counters
+        self.ghost = ghost  # optional callable(it) -> assumptions introducing ghost counters
+        self.has = has      # optional division-free form of  it < count
+        self.done = done    # optional division-free form of  it == count  (loop exit)
+
+
+class StarAbstract:
+    """*lst for an abstract list in a call"""
+
+    def __init__(self, lst):
+        self.lst = lst
 
 
 class CatList:
